@@ -5,6 +5,8 @@ import Verif.C14.Model
 import Verif.C13.Loader
 import Verif.C13.Mask
 import Verif.C13.Link
+import Verif.C13.Text
+import Verif.C13.Active
 open Lean Verif.Proto Verif.C13 Verif.C14
 
 namespace Verif.C13.Driver
@@ -184,10 +186,34 @@ partial def ofNode (j : Json) : Except String Node := do
     pure (.defcall (← getCps j "n") body (← getBool j "after"))
   | _ => throw s!"bad node {k}"
 
+def ofText (j : Json) : Except String (Str × Str) := do
+  let a ← j.getArr?
+  match a.toList with
+  | [n, t] => pure (← ofCps n, ← ofCps t)
+  | _ => throw "bad file text"
+
+/-- with "ftexts": the directory's files as TEXTS (`TextEnv`, split by the model's `splitLines`). -/
+def teOf (j : Json) : Except String (Option TextEnv) := do
+  match j.getObjVal? "ftexts" with
+  | .ok (Json.arr a) =>
+    let texts ← a.toList.mapM ofText
+    let pre ← (← getArr j "pre").mapM ofCps
+    pure (some { texts := fun n => (texts.find? (fun f => f.1 = n)).map (·.2), hasDir := ← getBool j "hasDir", pre := pre })
+  | _ => pure none
+
 def envOf (j : Json) : Except String Env := do
-  let files ← (← getArr j "files").mapM ofFile
-  let pre ← (← getArr j "pre").mapM ofCps
-  pure { files := fun n => (files.find? (fun f => f.1 = n)).map (·.2), hasDir := ← getBool j "hasDir", pre := pre }
+  match ← teOf j with
+  | some te => pure te.toEnv
+  | none =>
+    let files ← (← getArr j "files").mapM ofFile
+    let pre ← (← getArr j "pre").mapM ofCps
+    pure { files := fun n => (files.find? (fun f => f.1 = n)).map (·.2), hasDir := ← getBool j "hasDir", pre := pre }
+
+/-- the lines of the top module: given as lines, or as TEXT split by `splitLines`. -/
+def linesOf (j : Json) : Except String (List Str) := do
+  match j.getObjVal? "text" with
+  | .ok t@(Json.arr _) => pure (splitLines (← ofCps t))
+  | _ => (← getArr j "lines").mapM ofCps
 
 def jLoaded : Except LErr (Loader.Module × List (Str × Loader.Module)) → Json
   | .error e => jErr (errTag e)
@@ -195,9 +221,12 @@ def jLoaded : Except LErr (Loader.Module × List (Str × Loader.Module)) → Jso
       ("mods", jList (fun x => Json.arr #[cps x.1, jModule x.2]) mods)])
 
 def handleLoad (j : Json) : Except String Json := do
-  let env ← envOf j
-  let lines ← (← getArr j "lines").mapM ofCps
-  pure (jLoaded (loadLines env (← getNat j "fuel") lines))
+  match ← teOf j, j.getObjVal? "text" with
+  | some te, .ok t@(Json.arr _) => pure (jLoaded (loadText te (← getNat j "fuel") (← ofCps t)))
+  | _, _ =>
+    let env ← envOf j
+    let lines ← linesOf j
+    pure (jLoaded (loadLines env (← getNat j "fuel") lines))
 
 def handleRender (j : Json) : Except String Json := do
   let env ← envOf j
@@ -275,7 +304,7 @@ def textCtx (defs : List RuleDef) (j : Json) : Except String TextCtx := do
   let mut main : Option (Loader.Env × List Str × Nat) := none
   for lt in lts do
     let env ← Ld.envOf lt
-    let lines ← (← getArr lt "lines").mapM ofCps
+    let lines ← Ld.linesOf lt
     let label ← getCps lt "label"
     let k ← getNat lt "fuel"
     if label = "main".toList then main := some (env, lines, k)
@@ -321,6 +350,42 @@ def runTextM (c : TextCtx) (tab mtab : List EngEntry) (fuel : Nat) (input : Str)
     if !stepsCovered tab steps || !maskStepsCovered mtab steps then jErr "engine"
     else finishRun (jList jStepM stm) res seps
 
+/-! ### one object, a history of calls (`Link.runCalls`, Active.lean) -/
+
+def ofActive (j : Json) : Except String (Option (List Str)) :=
+  match j with
+  | Json.arr a => do pure (some (← a.toList.mapM ofCps))
+  | _ => pure none
+
+def ofCall (j : Json) : Except String Link.Call := do
+  let c ← getStr j "c"
+  match c with
+  | "activate" => pure (.activate (← getCps j "n"))
+  | "deactivate" => pure (.deactivate (← getCps j "n"))
+  | "apply" => pure (.apply (← getCps j "s") (← ofActive ((j.getObjVal? "active").toOption.getD Json.null)))
+  | "trace" => pure (.trace (← getCps j "s") (← ofActive ((j.getObjVal? "active").toOption.getD Json.null)) (← getBool j "verbose"))
+  | _ => throw s!"bad call {c}"
+
+/-- `_trace(s, active, verbose)` of the module loaded from the text, under the active set `act`:
+the steps shown (`applied or verbose`) and the result. -/
+def runShown (c : TextCtx) (tab : List EngEntry) (mtab? : Option (List EngEntry)) (fuel : Nat)
+    (act : List Str) (input : Str) (verbose : Bool) : Json :=
+  let c' : TextCtx := { c with E := { c.E with active := act } }
+  match mtab? with
+  | none =>
+    match Link.applyText c'.env c'.E (engOf tab) c'.k fuel c'.lines input with
+    | .error e => jErr (tErrTag e)
+    | .ok (steps, res) =>
+      if !stepsCovered tab steps then jErr "engine"
+      else finishRun (jList jStep (shownSteps verbose steps)) res none
+  | some mtab =>
+    match Link.applyTextM c'.env c'.E (engOf tab) (engOf mtab) c'.k fuel c'.lines input with
+    | .error e => jErr (tErrTag e)
+    | .ok (stm, res) =>
+      let steps := stm.map (·.step)
+      if !stepsCovered tab steps || !maskStepsCovered mtab steps then jErr "engine"
+      else finishRun (jList jStep (shownSteps verbose steps)) res none
+
 def handle (j : Json) : Except String Json := do
   let op ← getStr j "op"
   match op with
@@ -353,14 +418,22 @@ def handle (j : Json) : Except String Json := do
           | some mtab => (inputs.zip sepsL).map (fun (inp, sp) => runOneM tab mtab opsTree fuel inp sp)
           | none => (inputs.zip sepsL).map (fun (inp, sp) => runOne tab opsTree fuel inp sp)
         pure (rs, Json.null)
+    let session ← match j.getObjVal? "calls", j.getObjVal? "link" with
+      | .ok (Json.arr cs), .ok _ => do
+        let c ← textCtx defs j
+        let calls ← cs.toList.mapM ofCall
+        let d0 ← (← getArr j "defaults").mapM ofCps
+        let answers := Link.runCalls (runShown c tab mtab? fuel) ⟨d0⟩ calls
+        pure (Json.arr (answers.map (fun a => a.getD Json.null)).toArray)
+      | _, _ => pure Json.null
     let loaded ← match j.getObjVal? "ltexts" with
       | .ok (Json.arr a) => a.toList.mapM (fun lt => do
           let env ← Ld.envOf lt
-          let lines ← (← getArr lt "lines").mapM ofCps
+          let lines ← Ld.linesOf lt
           pure (Ld.jLoaded (Loader.loadLines env (← getNat lt "fuel") lines)))
       | _ => pure []
     pure (Json.mkObj [("load", load), ("runs", Json.arr runs.toArray), ("loaded", Json.arr loaded.toArray),
-                      ("treeagree", agree)])
+                      ("treeagree", agree), ("session", session)])
   | "load" => Ld.handleLoad j
   | "render" => Ld.handleRender j
   | "yy" =>
